@@ -33,6 +33,8 @@ type FaultCase struct {
 	Faults []Fault `json:"faults"`
 	// Bystander is a healthy operation sent in the same batch (after the faulted one) and alone afterwards
 	Bystander *gwx.GQLRequest `json:"bystander,omitempty"`
+	// CleanData: the answer of the operation without faults (the same operation is repeated after the faulted run)
+	CleanData map[string]interface{} `json:"clean_data,omitempty"`
 }
 
 var wholeCallKinds = []string{"transport", "status500", "status404", "status302", "notjson", "notarray-object", "notarray-null", "array-shorter", "array-longer"}
@@ -425,8 +427,21 @@ func checkC09(c *FaultCase) (f *ev.Failure, applied bool) {
 			return ev.Failf("bystander", "a healthy operation in the same batch was affected by fault %s: %s errors=%v", kind, msg, by.Errors), true
 		}
 	}
-	// later requests are unaffected
+	// later requests are unaffected: the same operation, now answered healthily, gets its clean answer
 	net.Fault = nil
+	if c.CleanData != nil {
+		r := gwx.PostOp(gw, main, 10*time.Second)
+		d, _ := gwx.Decode(r.Body)
+		if r.TimedOut || r.Panic != "" || d == nil {
+			return ev.Failf("later-request", "the operation could not be repeated after fault %s: %s", kind, trunc(r.Panic, 200)), true
+		}
+		if len(d.Errors) > 0 {
+			return ev.Failf("later-request", "after fault %s the same operation, answered healthily by every service, is reported with errors: %s", kind, trunc(jsonOf(d.Errors), 400)), true
+		}
+		if cls, msg := refexec.Diff(refexec.Prune(refexec.Normalize(c.CleanData)), refexec.Prune(refexec.Normalize(map[string]interface{}(d.Data))), "data"); cls != "" {
+			return ev.Failf("later-request", "after fault %s the same operation gets a different answer: %s", kind, msg), true
+		}
+	}
 	if c.Bystander != nil {
 		r := gwx.PostOp(gw, *c.Bystander, 10*time.Second)
 		d, _ := gwx.Decode(r.Body)
@@ -488,7 +503,7 @@ func TestC09(t *testing.T) {
 			bystander = &gwx.GQLRequest{Query: "{ __schema { queryType { name } } }"}
 		}
 		run := func(faults []Fault) {
-			fc := &FaultCase{ExecCase: *base, Faults: faults, Bystander: bystander}
+			fc := &FaultCase{ExecCase: *base, Faults: faults, Bystander: bystander, CleanData: out.Expected}
 			for _, ft := range faults {
 				if gateClosed(c09Gate(ft.Kind)) {
 					rec.Exclude(c09Gate(ft.Kind))
